@@ -1,6 +1,7 @@
 import DmrVerif.Lemmas.BurstData
 import DmrVerif.Lemmas.BurstProbes
 import DmrVerif.Lemmas.BurstEntry
+import DmrVerif.Lemmas.BurstForeign
 
 /-!
 # C01 — a burst the library assembles is parsed back identically, and re-assembles
@@ -289,6 +290,68 @@ theorem entry_voice_emb_roundtrip (c : Crcs) (v : Bits) (hv : v.length = 216) (c
     have h1' : Burst.parse c f.payloadBits .vocoder = .ok q := by rw [hf]; exact h1
     exact ⟨⟨q, Burst.ipscAux f⟩, Burst.fromIpsc_of_parse c f .vocoder q hk h1', h2, h7⟩
 
+/-! ## payload content that is itself a valid object of another kind (hardening after seeded changes C01-G, C01-H)
+
+"Any 216 vocoder bits" and "any 32 embedded bits" include every bit string the library itself serialises
+for something else: the two halves of a data burst (a Golay-valid slot type word at the slot type
+positions, a BPTC / trellis payload passing its CRC at the payload positions), code words of
+VBPTC(32,11) of either parity, fragments of an embedded LC, SYNC patterns.  `voice_sync_roundtrip` and
+`voice_emb_roundtrip` already quantify over all of them; the statements below name the class, so that
+the model definition the harness generates such bursts with (`Burst.transplant`, driver op
+`burst.transplant`) is the one a theorem speaks about.  The real code is run on the whole class by the
+harness: every payload kind × variant as donor × every LCSS / PI / equal and different colour code ×
+every announced burst type; all 2 × 2^11 VBPTC(32,11) words, embedded-LC fragments, every other encoder. -/
+
+/-- **transplant_roundtrip.**  Take the 264 bits `x` the library serialises for ANY supported payload,
+colour code and data SYNC, and replace the 48-bit centre: (1) by valid embedded signalling (any colour
+code — equal to the slot type's or not —, PI, LCSS) around any 32 embedded bits, not announced as data:
+the burst is parsed as a voice burst with that EMB — no slot type and no payload are read from the
+vocoder bits, however valid they look — and serialises to the identical 264 bits; (2) by a voice SYNC,
+whatever burst type is announced: likewise. -/
+theorem transplant_roundtrip (c : Crcs) (p : Payload) (hp : Burst.Built c p) (cc : Nat) (hcc : cc < 16) (s : Nat)
+    (hs : s ∈ dataSyncs) (b : Burst) (x : Bits) (hb : Burst.build p cc s = .ok b) (hx : Burst.serialise b = .ok x) :
+    (∀ (cc' pi lcss : Nat) (e32 : Bits) (bt : BurstType), cc' < 16 → pi < 2 → lcss < 4 → e32.length = 32 →
+      bt ≠ .dataAndControl →
+      let emb : Emb := ⟨cc', pi, lcss, Emb.genParity cc' pi lcss⟩
+      let y := Burst.transplant x (Burst.embCenter emb.enc e32)
+      ∃ q, Burst.parse c y bt = .ok q ∧ q.hasEmb = true ∧ q.emb = some emb ∧ q.embBits = e32
+        ∧ q.voiceBits = x.take 108 ++ x.drop 156 ∧ q.isDataOrControl = false ∧ q.slotType = none ∧ q.data = none
+        ∧ y.length = 264 ∧ Burst.serialise q = .ok y)
+    ∧ (∀ (s' : Nat) (bt : BurstType), s' ∈ voiceSyncs →
+      let y := Burst.transplant x (natToBits 48 s')
+      ∃ q, Burst.parse c y bt = .ok q ∧ q.isVocoder = true ∧ q.isDataOrControl = false ∧ q.slotType = none
+        ∧ q.data = none ∧ y.length = 264 ∧ Burst.serialise q = .ok y) := by
+  obtain ⟨b', x', _, h1, h2, h3, _⟩ := Burst.data_roundtrip c p hp cc hcc s hs .undefined
+  have hbb : b' = b := by rw [hb] at h1; exact (Except.ok.inj h1).symm
+  subst hbb
+  have hxx : x' = x := by rw [h2] at hx; exact Except.ok.inj hx
+  subst hxx
+  exact ⟨fun cc' pi lcss e32 bt g1 g2 g3 g4 g5 => Burst.transplant_emb c x' h3 cc' pi lcss g1 g2 g3 e32 g4 bt g5,
+    fun s' bt g => Burst.transplant_voice_sync c x' h3 s' g bt⟩
+
+/-- the same for ANY 264 bits in place of a library-serialised burst (a corrupted one, the complement,
+a slot type word of another data type over the same payload, another voice burst, …) -/
+theorem transplant_any (c : Crcs) (x : Bits) (hx : x.length = 264) (cc pi lcss : Nat) (hcc : cc < 16)
+    (hpi : pi < 2) (hl : lcss < 4) (e32 : Bits) (he : e32.length = 32) (bt : BurstType)
+    (hbt : bt ≠ .dataAndControl) :
+    let emb : Emb := ⟨cc, pi, lcss, Emb.genParity cc pi lcss⟩
+    let y := Burst.transplant x (Burst.embCenter emb.enc e32)
+    ∃ q, Burst.parse c y bt = .ok q ∧ q.hasEmb = true ∧ q.emb = some emb ∧ q.embBits = e32
+      ∧ q.voiceBits = x.take 108 ++ x.drop 156 ∧ q.isDataOrControl = false ∧ q.slotType = none ∧ q.data = none
+      ∧ y.length = 264 ∧ Burst.serialise q = .ok y :=
+  Burst.transplant_emb c x hx cc pi lcss hcc hpi hl e32 he bt hbt
+
+/-- **vocoder and embedded bits are serialised verbatim.**  The 264 bits a voice burst object with EMB
+serialises to determine its vocoder bits and its embedded bits: two objects that differ in either never
+serialise alike.  So `as_bits` cannot normalise content that happens to be a valid object of another
+kind — e.g. re-encode embedded bits that are a VBPTC(32,11) word of the odd-parity family as the
+even-parity word of the same 11 information bits (seeded change C01-H), or repair vocoder bits. -/
+theorem voice_serialise_injective (a b : Burst) (ha : a.isDataOrControl = false) (hb : b.isDataOrControl = false)
+    (hea : a.hasEmb = true) (heb : b.hasEmb = true) (hva : a.voiceBits.length = 216) (hvb : b.voiceBits.length = 216)
+    (hla : a.embBits.length = 32) (hlb : b.embBits.length = 32) (x : Bits) (h1 : Burst.serialise a = .ok x)
+    (h2 : Burst.serialise b = .ok x) : a.voiceBits = b.voiceBits ∧ a.embBits = b.embBits :=
+  Burst.serialise_voice_injective a b ha hb hea heb hva hvb hla hlb x h1 h2
+
 /-! ## non-vacuity -/
 
 example : (246245464858461 : Nat) ∈ dataSyncs := by decide
@@ -298,6 +361,14 @@ example (c : Crcs) : Burst.Built c (.csbk ⟨true, false, 0, 0x1234, .nackRsp 0 
   ⟨by decide, by simp [Csbk.init]⟩
 example (c : Crcs) : Burst.Built c (.rate34 ⟨List.replicate 16 0xAB, 5, 77, 0⟩) :=
   ⟨.confirmed, ⟨List.replicate 16 0xAB, 5, 77, 0⟩, by decide, by rfl⟩
+
+/-- the hypotheses of `transplant_roundtrip` are satisfiable: the negative acknowledgement CSBK is assembled
+and serialised (to 264 bits) for every CRC function -/
+example (c : Crcs) : ∃ b x, Burst.build (.csbk ⟨true, false, 0, 0x1234, .nackRsp 0 1 4 33 2623266 1234⟩) 5 246245464858461 = .ok b
+    ∧ Burst.serialise b = .ok x ∧ x.length = 264 := by
+  obtain ⟨b, x, _, h1, h2, h3, _⟩ := Burst.data_roundtrip c (.csbk ⟨true, false, 0, 0x1234, .nackRsp 0 1 4 33 2623266 1234⟩)
+    ⟨by decide, by simp [Csbk.init]⟩ 5 (by decide) 246245464858461 (by decide) .undefined
+  exact ⟨b, x, h1, h2, h3⟩
 
 /-- a DMRD frame object as the Kaitai parser returns it, slot bit 1: timeslot attribute 2, announced as vocoder -/
 example : (Burst.mmdvmAux ⟨.member 2, .member 1, 7, 1, 2, 3, []⟩).timeslot = 2
